@@ -348,10 +348,10 @@ def handleSeq (s : DState) (t : String) (selArgs : List String) (stop passes : S
       | _ => none
     match sel, stop.toNat?, passes.toNat? with
     | some sel, some stop, some passes =>
-      let m := renderItems (modelSeq ts sel stop)
-      let sp := renderItems (specSeq ts sel stop)
-      let mAll := String.intercalate "|" (List.replicate passes m)
-      let spAll := String.intercalate "|" (List.replicate passes sp)
+      -- several passes over one sequence value: abandoned passes (even) alternate with complete ones (odd)
+      let stopOf := fun (i : Nat) => if i % 2 == 1 then 0 else stop
+      let mAll := String.intercalate "|" ((List.range passes).map (fun i => renderItems (modelSeq ts sel (stopOf i))))
+      let spAll := String.intercalate "|" ((List.range passes).map (fun i => renderItems (specSeq ts sel (stopOf i))))
       if impl != spAll then diff s "SPEC" s!"impl={impl} spec={spAll}"
       else if impl != mAll then diff s "MODEL" s!"impl={impl} model={mAll}"
       else (s, [])
